@@ -109,6 +109,60 @@ def applyNorm (p : List Nat) (lo hi : List (Option Rat)) (t : Tensor) : Except E
     else .ok { t with data := ((chunk (numel p) t.data).map (normRow l h)).flatten }
   | _, _ => .ok t
 
+/-! ### min-max scaling with the IEEE specials: the code as found and as repaired
+
+  `Rat` division by zero is `0` in Lean, `0/0 = nan` and `c/0 = ±inf` in torch / numpy: `normalize` above is only
+  meaningful under `NormGuard` (no element with `high = low`).  `normalizeFound` is the division the code did when the
+  defect `C15-normalize-degenerate-bound` was found; `normalizeFixed` is the repaired code (a zero scale is replaced by
+  one, so a pixel whose bounds coincide maps to `0`). -/
+
+inductive Fl
+  | fin (q : Rat) | pinf | ninf | nan
+deriving Repr, DecidableEq
+
+/-- no element of the space has `high = low` -/
+def NormGuard (l h : List Rat) : Prop := ∀ b ∈ List.zip l h, b.2 - b.1 ≠ 0
+
+/-- as found: `(x - lo) / (hi - lo)` in IEEE arithmetic -/
+def normalizeFound (lo hi x : Rat) : Fl :=
+  if hi - lo = 0 then (if x - lo = 0 then .nan else if 0 < x - lo then .pinf else .ninf)
+  else .fin ((x - lo) / (hi - lo))
+
+/-- repaired: `scale = where(high - low == 0, 1, high - low)` -/
+def scaleOf (lo hi : Rat) : Rat := if hi - lo = 0 then 1 else hi - lo
+def normalizeFixed (lo hi x : Rat) : Rat := (x - lo) / scaleOf lo hi
+
+/-- the switch: `repaired = true` is the current code -/
+def normalizeV (repaired : Bool) (lo hi x : Rat) : Fl :=
+  if repaired then .fin (normalizeFixed lo hi x) else normalizeFound lo hi x
+
+def normRowV (repaired : Bool) (lo hi row : List Rat) : List Fl :=
+  List.zipWith (fun (b : Rat × Rat) x => normalizeV repaired b.1 b.2 x) (List.zip lo hi) row
+
+/-- `apply_image_normalization` with values in `Fl`.  Bounds: `none` in `lo` is `-inf`, `none` in `hi` is `+inf`
+    (a legal Box has no other infinite bound that is not matched by one of these); either one bypasses. -/
+def applyNormV (repaired : Bool) (p : List Nat) (lo hi : List (Option Rat)) (t : Tensor) :
+    Except Err (List Nat × List Fl) :=
+  match allSomeR lo, allSomeR hi with
+  | some l, some h =>
+    if l.length ≠ numel p ∨ h.length ≠ numel p ∨ numel p = 0 ∨ !(endsWith t.shape p) then .error .shape
+    else .ok (t.shape, ((chunk (numel p) t.data).map (normRowV repaired l h)).flatten)
+  | _, _ => .ok (t.shape, t.data.map .fin)
+
+/-! ### agent ids -/
+
+/-- `agent_id.rsplit("_", 1)[0]`: the id without its last `_`-separated field -/
+def homoId (s : String) : String :=
+  match (s.splitOn "_").reverse with
+  | _ :: (p :: ps) => "_".intercalate (p :: ps).reverse
+  | _ => s
+
+/-- `_agent_position`: index in `agent_ids`, unknown ids last -/
+def agentPosition (ids : List String) (a : String) : Nat :=
+  match ids.findIdx? (· == a) with
+  | some i => i
+  | none => ids.length
+
 /-! ### spaces -/
 
 inductive Leaf
@@ -241,6 +295,9 @@ end Obs
   * `dis <nAgents> | <data…>`                                → `<a0…> | <a1…> …`
   * `critic <B> | <d_0> <data…> | <d_1> <data…> …`           → `ok <shape…> | <data…>`
   * `criticimg <B> <C> <H> <W> | <data…> | …`                → `ok <shape…> | <data…>`
+  * `normv <repaired 0|1> | p… | lo… | hi… | <shape…> | <data…>` → `ok <shape…> | <x…>` (x: rational / `nan` / `inf` / `-inf`) / `reject`
+  * `homo | <agent id>`                                      → the group id
+  * `pos <agent id> | <ids…>`                                → position
 -/
 namespace Obs
 open Util
@@ -260,6 +317,12 @@ def parseBound? (s : String) : Option (Option Rat) :=
   if s = "inf" ∨ s = "-inf" then some none else (parseRat? s).map some
 
 def showTensor (t : Tensor) : String := "ok " ++ showNats t.shape ++ " | " ++ showRats t.data
+
+def showFl : Fl → String
+  | .fin q => showRat q
+  | .pinf => "inf"
+  | .ninf => "-inf"
+  | .nan => "nan"
 
 def showRes : Except Err Tensor → String
   | .ok t => showTensor t
@@ -293,6 +356,16 @@ def step (s : IOState) (ws : List String) : IOState × String :=
   match splitBar ws with
   | ["prep", norm] :: rest => (s, stepPrep false norm rest)
   | ["preplegacy", norm] :: rest => (s, stepPrep true norm rest)
+  | [["normv", rep], p, lo, hi, shape, data] =>
+    match parseNats? p, allSome (lo.map parseBound?), allSome (hi.map parseBound?), parseTensor? shape data with
+    | some p, some lo, some hi, some t =>
+      if rep ≠ "0" ∧ rep ≠ "1" then (s, "bad-op") else
+      (s, match applyNormV (rep = "1") p lo hi t with
+          | .ok (sh, d) => "ok " ++ showNats sh ++ " | " ++ " ".intercalate (d.map showFl)
+          | .error _ => "reject")
+    | _, _, _, _ => (s, "bad-op")
+  | [["homo"], [a]] => (s, homoId a)
+  | ["pos", a] :: [ids] => (s, toString (agentPosition ids a))
   | [["batchdim"], shape, p] =>
     match parseNats? shape, parseNats? p with
     | some sh, some p =>
